@@ -297,3 +297,24 @@ Proof.
   destruct (side_vertices_spec p o m) as [S1 _]. destruct (side_disp_spec p o m) as (S2 & S3 & S4 & S5).
   csplit; congruence || (rewrite L; first [apply collapse_ent_origin_spec | apply fixup_key_position_spec]).
 Qed.
+
+(** what [transform g_arith] of c17_property means, item by item: a point is rotated by the instance matrix and then offset by
+    its origin, a direction is rotated, a texture axis is placed so that the texture moves with the geometry ([uvplace]), an
+    orientation is composed with the instance rotation *)
+Lemma g_arith_is_spec : forall D p (it : item D), place_item D g_arith p it = place_item D spec_arith p it.
+Proof.
+  intros D [o m] [v|v|u|r|d]; cbn [place_item fst snd g_arith spec_arith ar_point ar_dir ar_axis ar_orient].
+  - rewrite localise_point. reflexivity.
+  - rewrite fixup_key_direction_spec. reflexivity.
+  - rewrite uv_localise_spec. reflexivity.
+  - rewrite g_angle_imatmul_spec. reflexivity.
+  - reflexivity.
+Qed.
+
+Lemma transform_g_is_spec : forall D p (r : added D), transform D g_arith p r = transform D spec_arith p r.
+Proof.
+  intros D p [st l]. unfold transform. cbn [fst snd].
+  assert (E : List.map (place_item D g_arith p) l = List.map (place_item D spec_arith p) l).
+  { induction l as [|x l IH]; cbn [List.map]; [reflexivity|]. rewrite g_arith_is_spec, IH. reflexivity. }
+  rewrite E. reflexivity.
+Qed.
